@@ -213,53 +213,83 @@ def run_handler(case):
                     st.set_value(sid, key, val)
             obs["db_before"] = _dump_db(db_path)
             uri = K.request_uri(case)
-        client_address = (case["client"], 40000) if ":" not in case["client"] else (case["client"], 40000, 0, 0)
-        body_bytes = None
-        _STATE["armed"] = True
-        try:
-            if kind == "tftp":
-                fname = uri[1:] if case.get("tftp_no_slash") else uri
-                ctx = handler.prepare_context(fname)
-                if not handler.can_handle(fname, ctx):
-                    return {"harness_exception": "request does not match the handler: " + fname}
-                try:
-                    f = handler.handle(fname, client_address, ("::", 69), ctx)
-                    outcome = "served"
+        def request(sub):
+            """one request of `sub` (same handler object); (outcome, body bytes)"""
+            uri = K.request_uri(sub)
+            client_address = (sub["client"], 40000) if ":" not in sub["client"] else (sub["client"], 40000, 0, 0)
+            body_bytes = None
+            _STATE["armed"] = True
+            try:
+                if kind == "tftp":
+                    fname = uri[1:] if sub.get("tftp_no_slash") else uri
+                    ctx = handler.prepare_context(fname)
+                    if not handler.can_handle(fname, ctx):
+                        return "harness:request does not match the handler: " + fname, None
                     try:
-                        body_bytes = f.read()
-                    finally:
-                        f.close()
-                except _STATE["TftpError"] as e:
-                    code = int(getattr(e, "error_code", -1))
-                    obs["tftp_error"] = code
-                    outcome = {2: "forbidden", 1: "not_found"}.get(code, "other:tftp-%d" % code)
-            else:
-                method = case.get("method", "GET" if kind == "http" else "POST")
-                headers = http.client.HTTPMessage()
-                body = case.get("body", "")
-                if kind == "sqlite":
-                    headers["Content-Length"] = str(len(body.encode()))
-                ri = _STATE["HttpRequestInfo"](client_address=client_address, headers=headers, method=method,
-                                               server_address=("::", 80), uri=uri)
-                ctx = handler.prepare_context(uri)
-                if not handler.can_handle(uri, ctx):
-                    return {"harness_exception": "request does not match the handler: " + uri}
-                status, hdrs, f = handler.handle(ri, io.BytesIO(body.encode()), ctx)
-                status = int(status)
-                obs["status"] = status
-                if f is not None:
-                    try:
-                        body_bytes = f.read()
-                    finally:
-                        f.close()
-                outcome = {200: "served", 403: "forbidden", 404: "not_found"}.get(status, "other:%d" % status)
-        except DataSourceFailure:
-            outcome = "ds_error"
-        except Exception as e:  # whatever escapes the handler is an internal error of the server
-            outcome = "internal_error"
-            obs["exc"] = _exc_name(e)
-        finally:
-            _STATE["armed"] = False
+                        f = handler.handle(fname, client_address, ("::", 69), ctx)
+                        outcome = "served"
+                        try:
+                            body_bytes = f.read()
+                        finally:
+                            f.close()
+                    except _STATE["TftpError"] as e:
+                        code = int(getattr(e, "error_code", -1))
+                        obs["tftp_error"] = code
+                        outcome = {2: "forbidden", 1: "not_found"}.get(code, "other:tftp-%d" % code)
+                else:
+                    method = sub.get("method", "GET" if kind == "http" else "POST")
+                    headers = http.client.HTTPMessage()
+                    body = sub.get("body", "")
+                    if kind == "sqlite":
+                        headers["Content-Length"] = str(len(body.encode()))
+                    ri = _STATE["HttpRequestInfo"](client_address=client_address, headers=headers, method=method,
+                                                   server_address=("::", 80), uri=uri)
+                    ctx = handler.prepare_context(uri)
+                    if not handler.can_handle(uri, ctx):
+                        return "harness:request does not match the handler: " + uri, None
+                    status, hdrs, f = handler.handle(ri, io.BytesIO(body.encode()), ctx)
+                    status = int(status)
+                    obs["status"] = status
+                    if f is not None:
+                        try:
+                            body_bytes = f.read()
+                        finally:
+                            f.close()
+                    outcome = {200: "served", 403: "forbidden", 404: "not_found"}.get(status, "other:%d" % status)
+            except DataSourceFailure:
+                outcome = "ds_error"
+            except Exception as e:  # whatever escapes the handler is an internal error of the server
+                outcome = "internal_error"
+                obs["exc"] = _exc_name(e)
+            finally:
+                _STATE["armed"] = False
+            return outcome, body_bytes
+
+        # earlier requests on the SAME handler object (other clients, other stored data): the handler keeps no
+        # per-request state, so they must not change what the judged request gets
+        if case.get("before"):
+            for prev in case["before"]:
+                sub = dict(case, **prev)
+                ds.world = sub["world"]
+                request(sub)
+            ds.world = world
+            ds.failed = False
+            del log[:]
+            _STATE["opens"].clear()
+            _STATE["renders"].clear()
+            for k_ in ("tftp_error", "status", "exc"):
+                obs.pop(k_, None)
+            if db_path is not None:
+                from vinegar.utils.sqlite_store import open_data_store
+                with open_data_store(db_path) as st:
+                    for sid in list(st.list_systems()):
+                        st.delete_data(sid)
+                    for sid, key, val in K.DB_ROWS:
+                        st.set_value(sid, key, val)
+                obs["db_before"] = _dump_db(db_path)
+        outcome, body_bytes = request(case)
+        if isinstance(outcome, str) and outcome.startswith("harness:"):
+            return {"harness_exception": outcome[8:]}
         obs["outcome"] = outcome
         obs["opens"] = sorted(set(_STATE["opens"]))
         obs["renders"] = len(_STATE["renders"])
